@@ -12,6 +12,15 @@ import (
 	"verif/engine/sched"
 )
 
+var forced int
+
+// SetOrder fixes the order Keys returns (1 descending, 2 rotated) without
+// asking the scheduler; 0 returns to the scheduler's choice. Sequential
+// drivers use it to make the order part of an operation.
+//
+//go:norace
+func SetOrder(o int) { forced = o % 3 }
+
 // Keys returns the keys of map m as a []K (boxed), ordered according to the
 // scheduler's choice (default ascending).
 //
@@ -22,7 +31,11 @@ func Keys(m interface{}) interface{} {
 	keys := v.MapKeys()
 	sortKeys(keys, kt)
 	if n := len(keys); n >= 2 {
-		switch sched.Choose(3, "map-order") {
+		c := forced
+		if c == 0 {
+			c = sched.Choose(3, "map-order")
+		}
+		switch c {
 		case 1: // descending
 			for i, j := 0, n-1; i < j; i, j = i+1, j-1 {
 				keys[i], keys[j] = keys[j], keys[i]
